@@ -30,7 +30,7 @@ CLAIMS = {
                 'filters `[?(!@ inner)]` (NegFilt.v) keep the members from which inner reaches nothing; filters over a query in disjunctive form '
                 '`[?(b&&b||b&&b...)]` (QueryParse.v, QueryAddr.v, LitParse.v; every b an existence test, its negation, a number comparison or == / != against a plain string, boolean or null literal; no blanks) keep the members for which some conjunction '
                 'has all its basic queries true; a basic query may also look at the document (RootOp.v): `$ steps`, `!$ steps` and `@ inner OP $ steps` (orderings; == and != by deep equality, with the both-absent rule when the `$` path reaches nothing — the one verdict that depends on all the members offered together), true for every member / compared with what the `$` path reaches. '
-                'A comparison step may be written with blanks around its operator (CmpSpace.v, FCS: `[?(@.a >= 2)]`). A filter may follow `..` (FR: applied to every container below and including the value, in pre-order). Regular-expression tests `@ inner=~/body/` (RegexOp.v; body without `/`, a backslash not before `/` or `\\`) keep the members whose value is a string the expression matches (regexp, a parameter of the model). Not a theorem for the other step kinds (literal or `$` left operands, string escapes, negated comparisons, parenthesised sub-queries, blanks inside filters, multi-name selectors, scripts): which AST a given text denotes (parser model vs '
+                'A comparison, existence or negated existence step may be written with blanks after `?(`, around the operator, after `!` and before `)` (CmpSpace.v, FiltSpace.v; FCS, FES: `[?( @.a >= 2 )]`, `[?( ! @.a )]`). A filter may follow `..` (FR: applied to every container below and including the value, in pre-order). Regular-expression tests `@ inner=~/body/` (RegexOp.v; body without `/`, a backslash not before `/` or `\\`) keep the members whose value is a string the expression matches (regexp, a parameter of the model). Not a theorem for the other step kinds (literal or `$` left operands, string escapes, negated comparisons, parenthesised sub-queries, blanks inside filters, multi-name selectors, scripts): which AST a given text denotes (parser model vs '
                 'real parser by tree dumps and through the API). Correspondence: generated paths x documents; the extracted '
                 'specification runs next to the model on every case (a model/spec difference is reported).',
         'note': NOTE_COMMON + EVAL_HYP + ' The specification states the library conventions explicitly (whole-match $ operands, both-absent rule of path == path).',
@@ -223,7 +223,7 @@ CLAIMS = {
         'text': 'PARTIAL. Proved: what a path selects does not depend on the text/connected-text fields of its nodes '
                 '(C18_values_text_independent, on the specification), so spellings parsed to trees equal up to texts select the same '
                 'values; lexical facts: `space` eats exactly the blanks and emits nothing, + sign and leading zeros do not change an '
-                'integer, quote styles name the same key, `.*`/`[*]` run the same action. FROM THE PATH TEXT: for every non-empty name without control characters $["name"], $[\'name\'] and $.name are accepted and return the same results on every object or all fail (C18_name_spellings_agree). C18_dollar_optional: for every path of name / index / wildcard / slice steps (each after the first possibly after `..`) the text without its leading $ is accepted and returns the same results as the text with it, or both fail; C18_outer_spaces_same_tree: with any number of blanks before and after, Parse returns the very same tree. C18_equivalent_spellings_from_text (SpellText.v): two paths of steps and filters whose steps MEAN the same (navigate alike from every value) are both accepted and return the same results or both fail, with C18_spellings_that_mean_the_same: .name / [\'name\'] / ["name"], .* / [*], indexes and slice bounds with leading zeros or a plus sign (the number written), respelled filter operands, number literals denoting the same float, blanks around a comparison operator, the same after `..`. Not proved: respellings inside the step kinds outside the text theorems (escapes, blanks inside brackets, multi-name selectors) '
+                'integer, quote styles name the same key, `.*`/`[*]` run the same action. FROM THE PATH TEXT: for every non-empty name without control characters $["name"], $[\'name\'] and $.name are accepted and return the same results on every object or all fail (C18_name_spellings_agree). C18_dollar_optional: for every path of name / index / wildcard / slice steps (each after the first possibly after `..`) the text without its leading $ is accepted and returns the same results as the text with it, or both fail; C18_outer_spaces_same_tree: with any number of blanks before and after, Parse returns the very same tree. C18_equivalent_spellings_from_text (SpellText.v): two paths of steps and filters whose steps MEAN the same (navigate alike from every value) are both accepted and return the same results or both fail, with C18_spellings_that_mean_the_same: .name / [\'name\'] / ["name"], .* / [*], indexes and slice bounds with leading zeros or a plus sign (the number written), respelled filter operands, number literals denoting the same float, blanks inside comparison and existence filters, the same after `..`. Not proved: respellings inside the step kinds outside the text theorems (escapes, blanks inside brackets, multi-name selectors) '
                 'and the same-error-step half. Tie: every generated AST in 2..6 spellings must agree on the real '
                 'library and with the model.',
         'note': NOTE_COMMON, 'technique': 'Coq proof on the specification + lexical lemmas on the regenerated grammar + spelling-group oracle'},
